@@ -566,7 +566,7 @@ def cases(tier, seed):
                     w.update(dim=2, tau=1)
                 yield w
     # (5) random larger
-    nr = 400 if thorough else 60
+    nr = 1000 if thorough else 120
     for k in range(nr):
         n = 6 + rng.randint(55) if k % 4 else 60
         p = rng.choice([.05, .2, .5, .8, .95])
